@@ -3113,6 +3113,15 @@ class C12(ProcProp):
             "like the tool's own words (34 words: command names, aliases, option names without dashes, help, version) as input file, -o target, "
             "-t / -f key name, -k / KESTREL_KEYRING path, and as a recipient who is not in the keyring: the operation is carried out resp. refused "
             "like for any other name; "
+            "names part (c12_r5_names_part): 25 fixed + 6 (thorough 24) random pairs of input / -o names related only as strings (same base name "
+            "in another directory, one path a trailing or leading part of the other, relative against absolute, '-', './--', a directory named '-', "
+            "blanks, case, non-ASCII) x the four commands (quick: 2 per pair) x {file argument + -o, stdin + -o, file argument + stdout} on a valid "
+            "input in a private directory: exit 0, the bytes of the plain stdin -> stdout run, nothing on stdout with -o, the directory afterwards = "
+            "before + exactly the -o file; short-write part (c12_r5_short_write_part): the four commands on 1- and 3-chunk (thorough: also 2-chunk) inputs with the output "
+            "file limited by RLIMIT_FSIZE (SIGXFSZ ignored: a short write, then EFBIG) inside the first record, at a record boundary, inside the last "
+            "record / last write, 1 / 16 / 17 bytes before the end and exactly at the end, for -o and for stdout redirected to a file: exit 0 exactly "
+            "when the complete output is in the file, otherwise exit 1 with an Error: line and a prefix of the output (these two parts are judged by "
+            "the direct oracles, not recorded for the model comparison); "
             "EVERY process run above (the wiring matrix, the fixed-wiring decryptions of what "
             "it produced, the runs that build the world, the output targets, the deliveries) is recorded - argv, KESTREL_ variables, stdin, "
             "the part of the tree it can name before and after, exit code, stdout, stderr - and compared in one batch with the CLI model "
@@ -3253,6 +3262,12 @@ class C12(ProcProp):
             s4a_sender_report_part(self, ctx, w)
             ctx.distribution["seconds:sender-report"] = round(time.time() - t_tg, 1)
             c12_tty_stdin_envpass_part(self, ctx, w)
+            t_tg = time.time()
+            c12_r5_names_part(self, ctx, w)
+            ctx.distribution["seconds:names-part"] = round(time.time() - t_tg, 1)
+            t_tg = time.time()
+            c12_r5_short_write_part(self, ctx, w)
+            ctx.distribution["seconds:short-write-part"] = round(time.time() - t_tg, 1)
             ctx.evaluations += w.nruns
             self.count(ctx, "proc:runs", w.nruns)
         finally:
@@ -4082,6 +4097,301 @@ def first_diff(a, b):
     return min(len(a), len(b)) if len(a) != len(b) else None
 
 
+# =========================================================================== C12 (round 6): relations between the NAMES of input and output; short writes
+R5_RLIMIT_CODE = ("import os,resource,signal,sys\n"
+                  "signal.signal(signal.SIGXFSZ, signal.SIG_IGN)\n"
+                  "resource.setrlimit(resource.RLIMIT_FSIZE, (int(sys.argv[1]), int(sys.argv[1])))\n"
+                  "os.execv(sys.argv[2], sys.argv[2:])\n")
+
+
+def r5_run(w, argv, env, cwd, stdin_path=None, stdout_path=None, limit=None, timeout=120):
+    """one real process in the private directory cwd (= HOME); stdin: the null device | the file stdin_path; stdout: a pipe | the
+    file stdout_path (created); limit: RLIMIT_FSIZE in bytes with SIGXFSZ ignored (a write that crosses the limit is SHORT, the
+    next one fails with EFBIG) set by a small launcher that then executes the program.  Not recorded for the model comparison
+    (these runs are judged by the direct oracles).  -> Run"""
+    import sys as _sys
+    e = {"PATH": "/usr/bin:/bin", "HOME": cwd, "LANG": "C.UTF-8"}
+    e.update(env or {})
+    cmdline = [w.bin] + list(argv)
+    if limit is not None:
+        cmdline = [_sys.executable, "-c", R5_RLIMIT_CODE, str(limit), w.bin] + list(argv)
+    fin = open(stdin_path, "rb") if stdin_path else None
+    fout = open(stdout_path, "wb") if stdout_path else None
+    try:
+        try:
+            pr = subprocess.run(cmdline, env=e, stdin=fin if fin else subprocess.DEVNULL, stdout=fout if fout else subprocess.PIPE,
+                                stderr=subprocess.PIPE, start_new_session=True, cwd=cwd, timeout=timeout)
+            rc, out, err = pr.returncode, pr.stdout or b"", pr.stderr
+        except subprocess.TimeoutExpired as ex:
+            rc, out, err = 124, b"", (ex.stderr or b"") + b"\n[timeout]"
+    finally:
+        if fin:
+            fin.close()
+        if fout:
+            fout.close()
+    w.nruns += 1
+    env_shown = dict(env or {})
+    if limit is not None:
+        env_shown["(process limits)"] = "RLIMIT_FSIZE=%d bytes, SIGXFSZ ignored" % limit
+    sin = None
+    if stdin_path:
+        sin = "<" + os.path.relpath(stdin_path, cwd)
+    if stdout_path:
+        env_shown["(stdout)"] = "redirected to the new file " + os.path.relpath(stdout_path, cwd)
+    return Run(list(argv), env_shown, sin, rc, out, err)
+
+
+# (label, input path, -o path) relative to the run's directory; @D = that directory (absolute spelling).  The two are ALWAYS two
+# different files, and the strings differ: nothing but the names relates them.
+R5_NAME_PAIRS = [
+    ("same base name, output in a sub-directory", "msg.bin", "out/msg.bin"),
+    ("same base name, input in a sub-directory", "in/msg.bin", "msg.bin"),
+    ("same base name in two sibling directories", "a/x", "b/x"),
+    ("output path is the tail of the input path", "a/b/msg", "b/msg"),
+    ("input path is the tail of the output path, two levels", "b/msg", "a/b/msg"),
+    ("input path is the tail of the ABSOLUTE output path", "msg.bin", "@D/out/msg.bin"),
+    ("output path is the tail of the ABSOLUTE input path", "@D/in/notes.txt", "notes.txt"),
+    ("output in the directory above, same base name", "sub/msg.bin", "sub/../msg.bin"),
+    ("input name is a leading part of the output name", "msg", "msg.out"),
+    ("output name is a leading part of the input name", "msg.bin", "msg"),
+    ("output name is a trailing part of the input NAME (no separator)", "xmsg", "msg"),
+    ("names that differ in case only", "msg.bin", "MSG.BIN"),
+    ("input named '-'", "-", "res"),
+    ("output named '-'", "data", "-"),
+    ("input AND output in a directory named '-'", "./-/in", "-/out"),
+    ("input './-'", "./-", "res"),
+    ("output './-'", "data", "./-"),
+    ("input '-', output in a sub-directory also named '-'", "-", "d/-"),
+    ("input './--'", "./--", "res"),
+    ("output './--'", "data", "./--"),
+    ("names with blanks", "my file", "my file.out"),
+    ("names with blanks, same base name in a directory with a blank", "c d", "a b/c d"),
+    ("a name made of blanks", "data", "  "),
+    ("non-ASCII names, same base name", "dä ✓", "ö/dä ✓"),
+    ("input whose name ends in a dot, output without it", "msg.", "msg"),
+]
+R5_NAME_ALPHABET = ["a", "b", "msg", "x.bin", "-", "--", " ", "o", "é", "out", "in", ".x", "x.", "-o", "=", "k r"]
+
+
+def r5_random_name_pairs(rng, n):
+    """pairs sharing their LAST component(s): one path is a trailing part of the other, or both end alike in different directories"""
+    out = []
+    while len(out) < n:
+        base = [rng.choice(R5_NAME_ALPHABET) for _ in range(rng.choice([1, 1, 2]))]
+        pre_a = [rng.choice(R5_NAME_ALPHABET) for _ in range(rng.choice([0, 0, 1, 2]))]
+        pre_b = [rng.choice(R5_NAME_ALPHABET) for _ in range(rng.choice([0, 1, 1, 2]))]
+        if pre_a == pre_b:
+            continue
+        a, b = pre_a + base, pre_b + base
+        # a path component may not be a prefix-directory of the other path's file and vice versa (a name is a file OR a directory)
+        def clash(p, q):
+            return any(p == q[:k] for k in range(1, len(q))) or p == q
+        if clash(a, b) or clash(b, a):
+            continue
+        if rng.random() < 0.5:
+            a, b = b, a
+        sa, sb = "/".join(a), "/".join(b)
+        # a first component beginning with '-' would be read as an option (a lone '-' is a name): spell it './...'
+        fixd = lambda s: "./" + s if (s.startswith("-") and s != "-") else s
+        sa, sb = fixd(sa), fixd(sb)
+        if rng.random() < 0.2:
+            sb = "@D/" + (sb[2:] if sb.startswith("./") else sb)
+        out.append(("random: common tail %r" % "/".join(base), sa, sb))
+    return out
+
+
+def c12_r5_names_part(self, ctx, w):
+    """The outcome does not depend on whether data comes by file argument or stdin, goes to -o or stdout - WHATEVER the two names
+    are.  For pairs of names that are related only as strings (same base name in another directory, one path a trailing / leading
+    part of the other, '-', './--', blanks, case) each of the four commands runs (file argument, -o), (stdin, -o) and (file
+    argument, stdout) on a valid input in a private directory: exit 0, the bytes delivered are those of the plain (stdin, stdout)
+    run made once, with -o nothing appears on stdout, and the tree of the directory afterwards is the tree before plus exactly
+    the one output file."""
+    rng = ctx.rng
+    full = ctx.thorough()
+    P = w.P["small"]
+    rnd = ctx.rbytes(64)
+    A, Bp = w.pw["alice"], w.pw["bob"]
+    cmds = [("encrypt", "encrypt", "pt_small", dict(to="bob", frm="alice", keyring="kr_full", pw=A, extra_env={"KESTREL_VERIF_RANDOM": rnd.hex()})),
+            ("decrypt", "decrypt", "ct_small", dict(to="bob", keyring="kr_full", pw=Bp)),
+            ("password encrypt", "pass-encrypt", "pt_small", dict(pw=w.passpw, extra_env={"KESTREL_VERIF_RANDOM": rnd[:32].hex()})),
+            ("password decrypt", "pass-decrypt", "pct_small", dict(pw=w.passpw))]
+    # the reference: stdin -> stdout in the world's own directory
+    ref = {}
+    for cmd, wcmd, src, kw in cmds:
+        argv, env, _ = wire(wcmd, dict(BASE_WIRING, inp="stdin", out="stdout"), src, "unused", **kw)
+        r = r5_run(w, argv, env, w.dir, stdin_path=w.p(src))
+        want = P if wcmd.endswith("decrypt") else None
+        if not proc_judge(ctx, r.rc == 0 and (want is None or r.out == want) and len(r.out) >= len(P), "C12 names: reference run (stdin -> stdout) of " + cmd,
+                          [r.describe()], "exit 0 and the complete output on stdout", "exit %d, %d bytes, stderr %r" % (r.rc, len(r.out), r.errtext()[-160:])):
+            return
+        ref[cmd] = r.out
+    pairs = list(R5_NAME_PAIRS) + r5_random_name_pairs(rng, 24 if full else 6)
+    wir = all_wirings(True)
+    jobs = []
+    for (label, a, b) in pairs:
+        for (cmd, wcmd, src, kw) in (cmds if full else rng.sample(cmds, 2)):
+            c = rng.choice(wir)
+            for inp, outk in (("arg", "o"), ("stdin", "o"), ("arg", "stdout")):
+                jobs.append({"label": label, "a": a, "b": b, "cmd": cmd, "wcmd": wcmd, "src": src, "kw": kw,
+                             "cfg": dict(c, inp=inp, out=outk)})
+    for i, j in enumerate(jobs):
+        j["i"] = i
+
+    def one(j):
+        d = w.p("r5n_%d" % j["i"])
+        os.mkdir(d)
+        try:
+            sub = lambda s: s.replace("@D", d)
+            a, b = sub(j["a"]), sub(j["b"])
+            pa, pb = os.path.normpath(os.path.join(d, a)), os.path.normpath(os.path.join(d, b))
+            # '..' in a spelling walks through the directories it names: make every directory on the way
+            for s in (a, b):
+                comps = os.path.join(d, s).split("/")[:-1]
+                cur = "/"
+                for comp in comps:
+                    cur = os.path.normpath(os.path.join(cur, comp)) if comp == ".." else os.path.join(cur, comp)
+                    if not os.path.isdir(cur):
+                        os.makedirs(cur, exist_ok=True)
+            shutil.copyfile(w.p(j["src"]), pa)
+            kw = dict(j["kw"])
+            if kw.get("keyring"):
+                os.link(w.p("kr_full"), os.path.join(d, "kr_full"))
+            argv, env, stdin = wire(j["wcmd"], j["cfg"], a, b, **kw)
+            before = kvc_tree_snapshot(d)
+            r = r5_run(w, argv, env, d, stdin_path=pa if stdin else None)
+            after = kvc_tree_snapshot(d)
+            filed = None
+            try:
+                with open(pb, "rb") as f:
+                    filed = f.read()
+            except OSError:
+                pass
+            return r, kvc_tree_diff(before, after), filed, os.path.relpath(pb, d)
+        finally:
+            shutil.rmtree(d, ignore_errors=True)
+    res = self.pmap(one, jobs)
+    for j, (r, diff, filed, outrel) in zip(jobs, res):
+        via = "%s, %s" % ("file argument" if j["cfg"]["inp"] == "arg" else "stdin", "-o" if j["cfg"]["out"] == "o" else "stdout")
+        self.count(ctx, "names:" + ("random" if j["label"].startswith("random") else j["label"]))
+        self.count(ctx, "names-wiring:" + via)
+        sc = "C12 names: %s of a valid input named %r with -o %r (%s), wiring %s (%s)" % (j["cmd"], j["a"], j["b"], j["label"], via, wname(j["cfg"]))
+        want = ref[j["cmd"]]
+        to_file = j["cfg"]["out"] == "o"
+        delivered = (filed if filed is not None else b"") if to_file else r.out
+        self.judge(ctx, r.rc == 0 and delivered == want, sc, [r],
+                   "exit 0 and the %d bytes the plain stdin -> stdout run delivers: the outcome does not depend on how (and under which names) "
+                   "data is supplied" % len(want),
+                   "exit %d, %d bytes delivered (first difference at %s), stderr %r" % (r.rc, len(delivered), first_diff(delivered, want), r.errtext()[-200:]))
+        if to_file:
+            self.judge(ctx, r.out == b"", sc, [r], "with -o nothing is written to stdout", "stdout %d bytes: %r" % (len(r.out), r.out[:40]))
+            if r.rc == 0:
+                self.judge(ctx, len(diff) == 1 and diff[0].startswith("CREATED " + outrel + " "), sc, [r],
+                           "the file named by -o (%s) is created and nothing else in the directory changes" % outrel, "; ".join(diff[:6]) or "no change at all")
+        else:
+            self.judge(ctx, not diff, sc, [r], "writing to stdout changes nothing in the directory", "; ".join(diff[:6]))
+
+
+def c12_r5_short_write_part(self, ctx, w):
+    """exit 0 exactly when the COMPLETE output has been written, when the output file may not grow beyond a limit (RLIMIT_FSIZE,
+    SIGXFSZ ignored: the write that crosses the limit is a short one, the next fails): limits at every kind of place inside
+    the output - inside the first record, at a record boundary, inside the LAST record / the last write, one byte before the
+    end, exactly the end (control: exit 0) - for -o and for stdout redirected to a file alike."""
+    rng = ctx.rng
+    full = ctx.thorough()
+    rnd = ctx.rbytes(64)
+    A, Bp = w.pw["alice"], w.pw["bob"]
+    sizes = [("small", len(w.P["small"]))] + ([("big", len(w.P["big"]))] if full else [])
+    n3 = 2 * CHUNK + rng.randrange(1, 60000)
+    w.write("pt_r5three", ctx.rbytes(n3))
+    sizes.append(("r5three", n3))
+    w.P["r5three"] = w.read("pt_r5three")
+    pre = [r5_run(w, ["encrypt", "pt_r5three", "-t", "bob", "-f", "alice", "-o", "ct_r5three", "-k", "kr_full", "--env-pass"], env_pw(A), w.dir),
+           r5_run(w, ["password", "encrypt", "pt_r5three", "-o", "pct_r5three", "--env-pass"], env_pw(w.passpw), w.dir)]
+    if not proc_judge(ctx, all(r.rc == 0 for r in pre), "C12 short writes: preparing a three-chunk file", [r.describe() for r in pre], "encryption succeeds",
+                      "exit %s" % [r.rc for r in pre]):
+        return
+    jobs = []
+    for key, n in sizes:
+        for cmd, argv, env, infile, L, hdr in (
+                ("decrypt", ["decrypt", "ct_" + key, "-t", "bob", "-k", "kr_full", "--env-pass"], env_pw(Bp), "ct_" + key, n, 0),
+                ("password decrypt", ["pass", "dec", "pct_" + key, "--env-pass"], env_pw(w.passpw), "pct_" + key, n, 0),
+                ("encrypt", ["enc", "pt_" + key, "-t", "bob", "-f", "alice", "-k", "kr_full", "--env-pass"],
+                 dict(env_pw(A), KESTREL_VERIF_RANDOM=rnd.hex()), "pt_" + key, HDR + 32 * (n // CHUNK + 1) + n, HDR),
+                ("password encrypt", ["password", "encrypt", "pt_" + key, "--env-pass"],
+                 dict(env_pw(w.passpw), KESTREL_VERIF_RANDOM=rnd[:32].hex()), "pt_" + key, PHDR + 32 * (n // CHUNK + 1) + n, PHDR)):
+            rec = CHUNK if hdr == 0 else CHUNK + 32
+            nrec = n // CHUNK + 1
+            last_start = hdr + (nrec - 1) * rec
+            inlast = rng.randrange(last_start + 1, L)
+            lims = {L - 1, inlast, L}
+            if nrec > 1:
+                lims |= {last_start, rng.randrange(hdr + 1, last_start)}
+            if hdr:
+                lims |= {rng.choice([hdr, L - 16, L - 17 if L - 17 > hdr else L - 1])}
+            if full:
+                lims |= {0, 1, L - 2, L + 1, 1 << 30, hdr, max(L - 16, 0), max(L - 17, 0), rng.randrange(1, hdr + rec)} | {rng.randrange(1, L) for _ in range(6)}
+                lims |= {rng.randrange(last_start + 1, L)}
+            for lim in sorted(lims):
+                for how in ("-o", "stdout redirected to a file"):
+                    if how != "-o" and not full and lim not in (L - 1, inlast):
+                        continue
+                    jobs.append({"cmd": cmd, "argv": argv, "env": env, "in": infile, "L": L, "limit": lim, "how": how, "key": key})
+    # what the complete output is: the plaintext; for the encryptors (injected random stream) the output of an unlimited run
+    want = {}
+    for j in jobs:
+        k = (j["cmd"], j["key"])
+        if k in want:
+            continue
+        if j["cmd"].endswith("decrypt"):
+            want[k] = w.P[j["key"]]
+        else:
+            r = r5_run(w, j["argv"], j["env"], w.dir)
+            if not proc_judge(ctx, r.rc == 0 and len(r.out) == j["L"], "C12 short writes: unlimited %s of %s" % (j["cmd"], j["key"]), [r.describe()],
+                              "exit 0 and %d bytes" % j["L"], "exit %d, %d bytes" % (r.rc, len(r.out))):
+                return
+            want[k] = r.out
+    for i, j in enumerate(jobs):
+        j["i"] = i
+
+    def one(j):
+        d = w.p("r5s_%d" % j["i"])
+        os.mkdir(d)
+        try:
+            kvc_link_inputs(w, d, j["argv"], j["env"])
+            if j["how"] == "-o":
+                r = r5_run(w, j["argv"] + ["-o", "out"], j["env"], d, limit=j["limit"])
+            else:
+                r = r5_run(w, j["argv"], j["env"], d, stdout_path=os.path.join(d, "out"), limit=j["limit"])
+            try:
+                with open(os.path.join(d, "out"), "rb") as f:
+                    made = f.read()
+            except OSError:
+                made = None
+            return r, made
+        finally:
+            shutil.rmtree(d, ignore_errors=True)
+    res = self.pmap(one, jobs)
+    for j, (r, made) in zip(jobs, res):
+        W = want[(j["cmd"], j["key"])]
+        fits = j["limit"] >= j["L"]
+        self.count(ctx, "short-write:%s:%s" % (j["how"], "everything fits" if fits else "limit inside the output"))
+        sc = ("C12 short writes: %s (%s, complete output %d bytes) with the output (%s) limited to %d bytes"
+              % (j["cmd"], j["key"], j["L"], j["how"], j["limit"]))
+        complete = made == W
+        self.judge(ctx, r.rc in (0, 1) and (r.rc == 0) == complete and (r.rc == 0) == fits, sc, [r],
+                   "exit %s: exit 0 exactly when the complete output (%d bytes) has been written, otherwise exit 1"
+                   % ("0" if fits else "1", j["L"]),
+                   "exit %d, the file holds %s; stderr %r" % (r.rc, "nothing (absent)" if made is None else "%d bytes (%s)" % (
+                       len(made), "the complete output" if complete else "first difference at %s" % first_diff(made, W)), r.errtext()[-200:]))
+        if r.rc != 0:
+            self.judge(ctx, "Error: " in r.errtext(), sc, [r], "a failing run prints an Error: line on stderr", "stderr %r" % r.errtext()[-200:])
+        if made is not None:
+            self.judge(ctx, len(made) <= max(j["limit"], 0) + 0 or fits, sc, [r], "the file does not exceed the limit", "%d bytes" % len(made))
+            self.judge(ctx, W.startswith(made), sc, [r], "what has been written is a prefix of the complete output",
+                       "%d bytes, first difference at %s" % (len(made), first_diff(made, W)))
+
+
 props.REGISTRY[C12.id] = C12()
 
 
@@ -4096,6 +4406,9 @@ C13_SHAPES = {
     "indirect": ["symlink-to-file", "dangling-symlink", "dangling-symlink-into-missing-dir", "parent-is-symlink-to-dir",
                  "symlink-to-symlink-to-file"],
     "special": ["directory", "fifo-without-reader", "parent-is-a-file", "empty-directory-with-slash"],
+    # present, but EMPTY / one byte long / read-only (round 6)
+    "small-present": ["empty-file", "one-byte-file", "subdir-empty-file", "absolute-empty-file", "symlink-to-empty-file", "read-only-file",
+                      "read-only-empty-file"],
 }
 
 
@@ -4125,6 +4438,22 @@ def c13_prepare_shape(shape, d):
         if shape.endswith("sentinel"):
             mk("out")
         return os.path.join(d, "out"), "out"
+    if shape in ("empty-file", "one-byte-file", "read-only-file", "read-only-empty-file"):
+        mk("out", {"empty-file": b"", "one-byte-file": b"\x00", "read-only-file": SENTINEL, "read-only-empty-file": b""}[shape])
+        if shape.startswith("read-only"):
+            os.chmod(os.path.join(d, "out"), 0o444)
+        return "out", "out"
+    if shape == "subdir-empty-file":
+        os.mkdir(os.path.join(d, "sub"))
+        mk("sub/out", b"")
+        return "sub/out", "sub/out"
+    if shape == "absolute-empty-file":
+        mk("out", b"")
+        return os.path.join(d, "out"), "out"
+    if shape == "symlink-to-empty-file":
+        mk("target", b"")
+        os.symlink("target", os.path.join(d, "out"))
+        return "out", "target"
     if shape == "symlink-to-file":
         mk("target")
         os.symlink("target", os.path.join(d, "out"))
@@ -4204,6 +4533,50 @@ def c13_same_layout(d, data):
         os.symlink(target, os.path.join(d, name))
 
 
+# prior states of the output path besides "absent" and "present with content": present and EMPTY, one byte, read-only
+C13_R5_SMALL_STATES = ["empty", "one-byte", "read-only-sentinel", "read-only-empty"]
+
+
+def c13_r5_later_files(w, ctx):
+    """a three-chunk file per mode (made by the program itself) damaged in a LATER chunk in every way the format offers: body,
+    tag, last-chunk flag, a length field that stays plausible / announces too much, the file cut inside / at the start of a later
+    record, data after the end (the 8 counter bytes of a record header are not read by the decryptor: not a failure).  -> (wire command, file, password, recipient, what, authenticated prefix)"""
+    rng = ctx.rng
+    n = 2 * CHUNK + rng.randrange(1, 40000)
+    P = ctx.rbytes(n)
+    w.write("pt_r5l", P)
+    e = w.run(["encrypt", "pt_r5l", "-t", "bob", "-f", "alice", "-o", "ct_r5l", "-k", "kr_full", "--env-pass"], env=env_pw(w.pw["alice"]))
+    q = w.run(["password", "encrypt", "pt_r5l", "-o", "pct_r5l", "--env-pass"], env=env_pw(w.passpw))
+    if e.rc != 0 or q.rc != 0:
+        raise RuntimeError("setup encryption (three chunks) failed: " + e.errtext() + q.errtext())
+    rec = 16 + CHUNK + 16
+    last = n - 2 * CHUNK
+    out = []
+    for cmd, f, hdr, pw, to in (("decrypt", "ct_r5l", HDR, w.pw["bob"], "bob"), ("pass-decrypt", "pct_r5l", PHDR, w.passpw, None)):
+        data = w.read(f)
+        fl = lambda off, bit=None: data[:off] + bytes([data[off] ^ (bit if bit else 1 << rng.randrange(8))]) + data[off + 1:]
+        c2, c3 = hdr + rec, hdr + 2 * rec               # start of the second / third record
+        kinds = [("body of chunk 2", fl(c2 + 16 + rng.randrange(CHUNK)), 1), ("tag of chunk 2", fl(c2 + 16 + CHUNK + rng.randrange(16)), 1),
+                 ("body of chunk 3", fl(c3 + 16 + rng.randrange(last)), 2), ("tag of chunk 3", fl(c3 + 16 + last + rng.randrange(16)), 2),
+                 ("last-chunk flag of chunk 2 set", fl(c2 + 11, 1), 1), ("last-chunk flag of chunk 3 cleared", fl(c3 + 11, 1), 2),
+                 ("length field of chunk 3, one less", data[:c3 + 12] + (last - 1).to_bytes(4, "big") + data[c3 + 16:], 2),
+                 ("length field of chunk 2, a little less", data[:c2 + 12] + (CHUNK - 1 - rng.randrange(1000)).to_bytes(4, "big") + data[c2 + 16:], 1),
+                 ("length field of chunk 2 announces more than a chunk", fl(c2 + 12, 0x40), 1),
+                 ("length field of chunk 3 is zero", data[:c3 + 12] + bytes(4) + data[c3 + 16:], 2),
+                 ("cut inside chunk 3", data[:c3 + 16 + rng.randrange(last)], 2), ("cut inside the header of chunk 3", data[:c3 + rng.randrange(1, 16)], 2),
+                 ("cut between chunk 2 and chunk 3", data[:c3], 2), ("cut inside chunk 2", data[:c2 + 16 + rng.randrange(CHUNK)], 1),
+                 ("cut inside the tag of chunk 3", data[:len(data) - rng.randrange(1, 16)], 2),
+                 ("one byte after the last chunk", data + bytes([rng.randrange(256)]), 2), ("the last record repeated", data + data[c3:], 2)]
+        if not ctx.thorough():
+            # quick: the authentication failures (body / tag; two of flag / plausible length) and a sample of the others
+            kinds = kinds[:4] + rng.sample(kinds[4:8], 2) + rng.sample(kinds[8:], 3)
+        for i, (what, blob, good) in enumerate(kinds):
+            name = "%s_%02d" % (f, [k[0] for k in kinds].index(what))
+            w.write(name, blob)
+            out.append((cmd, name, pw, to, what, P[:good * CHUNK]))
+    return out
+
+
 class C13(ProcProp):
     id = "C13"
     rule = ("cases: the five writing commands (encrypt, decrypt, password encrypt, password decrypt, key generate -o) x every "
@@ -4213,7 +4586,13 @@ class C13(ProcProp):
             "data after the last chunk, input paths without a final component, refused key exchange with a low-order public key on either side, invalid key name) x output path {absent, present "
             "with sentinel content}; quick: base wiring + 1 random wiring, thorough: + 6 random wirings (stdin input, aliases, "
             "option spellings, keyring by environment); later-chunk failures (damaged / truncated second chunk): the path holds "
-            "exactly the first 65536 plaintext bytes; whole-tree part: every cause again in a private working directory (= HOME) whose "
+            "exactly the first 65536 plaintext bytes; round 6: every wired cause once more with the input on STDIN, prior states of the output path "
+            "also {present and EMPTY, one byte, read-only with content, read-only and empty} (quick: one of them per cause and wiring, thorough: all), "
+            "the same as whole-tree shapes (empty / one-byte / read-only file, in a sub-directory, absolute, behind a symbolic link); later-chunk "
+            "failures of every kind on a three-chunk file per mode (c13_r5_later_files: bit flips in body / tag of chunk 2 and 3, last-chunk flag "
+            "set / cleared, length field smaller / zero / too large, cut inside chunk 2 / chunk 3 / a record header / the last tag / between records, "
+            "trailing byte / repeated last record; quick 9 of 17 per mode) by file argument and by stdin onto absent / empty / one-byte / longer "
+            "files: exit status exactly 1 and exactly the authenticated prefix (65536 or 131072 bytes); whole-tree part: every cause again in a private working directory (= HOME) whose "
             "COMPLETE tree (files with content hashes, directories, symbolic links, FIFOs) is snapshotted before and after, for 21 shapes of "
             "the output location {parent directories that do not exist: 1 level, 3 levels, absolute, via '..' / '.', below an existing "
             "directory; plain / sub-directory / absolute, absent and present; symbolic link to a file, dangling, chained, into a missing "
@@ -4469,12 +4848,23 @@ class C13(ProcProp):
             jobs = []
             for (cmd, cause, build, wired) in self.causes(w):
                 cfgs = [BASE_WIRING] + (rng.sample(wir, 6 if ctx.thorough() else 1) if wired else [dict(BASE_WIRING, spell="long", alias=True)])
+                if wired and cmd != "key generate":
+                    # every cause with the input on STDIN as well (the random wirings above have it half of the time only)
+                    cfgs.append(dict(rng.choice(wir), inp="stdin", r5_stdin=True))
                 for cfg in cfgs:
                     if cfg["out"] != "o":
                         cfg = dict(cfg, out="o")          # the property is about the -o path
                     if not wired:
                         cfg = dict(cfg, inp="arg")
-                    for pre in ("absent", "sentinel"):
+                    pres = ["absent", "sentinel"]
+                    if cfg.get("r5_stdin"):
+                        pres = ["absent", rng.choice(C13_R5_SMALL_STATES)]
+                    elif ctx.thorough():
+                        pres += C13_R5_SMALL_STATES
+                    else:
+                        # other prior states of the output path: an EMPTY file, one byte, a read-only file (quick: one of them)
+                        pres.append(rng.choice(["empty"] + C13_R5_SMALL_STATES))
+                    for pre in pres:
                         jobs.append({"cmd": cmd, "cause": cause, "build": build, "cfg": cfg, "pre": pre, "later": None})
             # later-chunk failures: the authenticated prefix stays
             for cmd, f, pw, to in (("decrypt", "ct_bad2", w.pw["bob"], "bob"), ("decrypt", "ct_trunc2", w.pw["bob"], "bob"),
@@ -4489,6 +4879,17 @@ class C13(ProcProp):
                             return wire(cmd, cfg, f, o, to=to, keyring="kr_full" if to else None, pw=pw)
                         jobs.append({"cmd": cmd.replace("pass-", "password "), "cause": "later-chunk:" + f, "build": build, "cfg": cfg, "pre": pre,
                                      "later": w.P["big"][:CHUNK]})
+            # later-chunk failures of every KIND, in the second and in the third chunk of a three-chunk file (c13_r5_later_files)
+            for (cmd, f, pw, to, what, prefix) in c13_r5_later_files(w, ctx):
+                cfgs = [BASE_WIRING, dict(rng.choice(wir), inp="stdin")] + (rng.sample(wir, 3) if ctx.thorough() else [])
+                for cfg in cfgs:
+                    cfg = dict(cfg, out="o")
+                    for pre in (["absent", "sentinel", "long-sentinel", "empty", "one-byte"] if ctx.thorough() else
+                                [rng.choice(["absent", "empty"]), rng.choice(["sentinel", "long-sentinel", "one-byte"])]):
+                        def build(o, cfg, cmd=cmd, f=f, pw=pw, to=to):
+                            return wire(cmd, cfg, f, o, to=to, keyring="kr_full" if to else None, pw=pw)
+                        jobs.append({"cmd": cmd.replace("pass-", "password "), "cause": "later-chunk:%s (%s)" % (f, what), "build": build, "cfg": cfg,
+                                     "pre": pre, "later": prefix})
             for i, j in enumerate(jobs):
                 j["i"] = i
             res = self.pmap(lambda j: self.one(w, j), jobs)
@@ -4501,7 +4902,10 @@ class C13(ProcProp):
                     self.judge(ctx, me[0] == run.rc, sc, [run], "CLI model: exit %r" % (me[0],), "exit %d" % run.rc)
                 self.judge(ctx, run.rc == 1 and "Error: " in run.errtext(), sc, [run], "the command fails: exit 1 with an Error: message",
                            "exit %d, stderr %r" % (run.rc, run.errtext()[-200:]))
-                if j["later"] is None:
+                if j["later"] is not None and len(j["later"]) != CHUNK:
+                    self.judge(ctx, after == j["later"], sc, [run], "the output path holds exactly the authenticated prefix (first %d plaintext bytes)" % len(j["later"]),
+                               "absent" if after is None else "%d bytes, first difference at %s" % (len(after), first_diff(after, j["later"])))
+                elif j["later"] is None:
                     self.judge(ctx, after == before, sc, [run],
                                "the output path is untouched (%s)" % ("still absent" if before is None else "the same %d bytes" % len(before)),
                                "absent" if after is None else "%d bytes: %r..." % (len(after), after[:60]))
@@ -4536,8 +4940,16 @@ class C13(ProcProp):
             before = SENTINEL
         elif j["pre"] == "long-sentinel":
             before = SENTINEL * 2000
+        elif j["pre"] in ("empty", "read-only-empty"):
+            before = b""
+        elif j["pre"] == "one-byte":
+            before = b"\n"
+        elif j["pre"] == "read-only-sentinel":
+            before = SENTINEL
         if before is not None:
             w.write(o, before)
+            if j["pre"].startswith("read-only"):
+                os.chmod(w.p(o), 0o444)
         argv, env, stdin = j["build"](o, j["cfg"])
         if isinstance(stdin, tuple) and not os.path.exists(w.p(stdin[1])):
             stdin = None
@@ -4564,9 +4976,12 @@ class C13(ProcProp):
             if ctx.thorough():
                 shapes = [s for f in fams.values() for s in f]
             else:
-                shapes = rng.sample(fams["missing-parent"], 2) + rng.sample(fams["indirect"] + fams["special"], 2) + [rng.choice(fams["plain"])]
+                shapes = (rng.sample(fams["missing-parent"], 2) + rng.sample(fams["indirect"] + fams["special"], 2) + [rng.choice(fams["plain"])]
+                          + [rng.choice(fams["small-present"])])
             for sh in shapes:
                 cfg = rng.choice(wir) if wired and rng.random() < 0.5 else BASE_WIRING
+                if wired and cmd != "key generate" and sh in fams["small-present"] + fams["plain"] and rng.random() < 0.5:
+                    cfg = dict(rng.choice(wir), inp="stdin")          # the input on stdin at least as often as by name
                 if not wired:
                     cfg = dict(cfg, inp="arg")
                 jobs.append({"cmd": cmd, "cause": cause, "build": build, "cfg": cfg, "shape": sh, "later": None})
